@@ -1010,6 +1010,7 @@ void get_final_qubit_coords_helper(
             for (const auto &t : op.targets) {
                 if (t.is_qubit_target()) {
                     auto &vec = new_qubit_coords[t.qubit_value()];
+                    vec.clear();
                     for (size_t k = 0; k < op.args.size(); k++) {
                         vec.push_back(op.args[k] + out_coord_shift[k]);
                     }
